@@ -82,6 +82,9 @@ class SMUserList(UserList, ABC):
         pass
 
     def _import(self, x, check=True):
+        if isinstance(x, np.ndarray) and x.dtype.kind == 'O' and x.shape == self.shape:
+            # symbolic value, cannot be checked numerically
+            return x
         if not check or self.isvalid(x, check=check):
             return x
         else:
